@@ -16,7 +16,7 @@ ID = 'C14'
 LEAN_MODULE = 'PncProofs.C14'
 LEAN_FILE = 'PncProofs/C14.lean'
 NAMESPACE = 'Props.C14'
-LEAN_CONE = ['PncModel.Words', 'PncModel.Camx.Uamiv', 'PncModel.Camx.Slab', 'PncProofs.PrefixLemmas', 'PncProofs.SlabLemmas', 'PncProofs.C13', 'PncProofs.C14']
+LEAN_CONE = ['PncModel.Words', 'PncModel.Camx.Uamiv', 'PncModel.Camx.Slab', 'PncModel.Camx.WindRead', 'PncProofs.PrefixLemmas', 'PncProofs.SlabLemmas', 'PncProofs.C13', 'PncProofs.C14']
 LEMMA_FILES = ['PncProofs/PrefixLemmas.lean']
 REQUIRED_THEOREMS = ['prefix_safe', 'odd_cut_raises', 'slab_prefix_safe', 'leading_take', 'take_flatten_uniform']
 RULE = ('three families. (1) small generated uamiv files (1-2 species, 1-2 layers, 1-2x1-2 cells, 1-3 steps) cut at byte offsets: '
@@ -302,7 +302,12 @@ def to_line(case, res):
         n = len(h) // 8
         c = case['spec']
         return 'bin slab-mm %s %d %s' % (S.FORMATS[c['fmt']][0], c['nx'] * c['ny'], h[:8 * n] or '-')
-    if fam in ('bpch', 'wind', 'bnd'):
+    if fam == 'wind':
+        h = res['hex']
+        n = len(h) // 8
+        c = case['spec']
+        return 'bin wind-read %d %s' % (c['nx'] * c['ny'], h[:8 * n] or '-')
+    if fam in ('bpch', 'bnd'):
         return 'bin slab-mm one3d 1 -'          # no model question for bpch / wind prefixes (oracle only)
     h = res['hex']
     n = len(h) // 8
@@ -311,8 +316,18 @@ def to_line(case, res):
 
 def agree(case, out, res):
     fam = case.get('family', 'uamiv')
-    if fam in ('bpch', 'wind', 'bnd'):
+    if fam in ('bpch', 'bnd'):
         return None
+    if fam == 'wind':
+        # the Memmap wind reader against its Lean model on the prefix
+        if res.get('view', {}).get('hang'):
+            return None         # judged by the oracle
+        if len(res['hex']) % 8 != 0:
+            return None if 'err' in res else 'a file of %d bytes was opened' % (len(res['hex']) // 2)
+        if 'err' in res:
+            return None if out.startswith('err') else 'impl raised %s (%s), the Lean reader model reads the prefix' % (res['err'], res.get('msg'))
+        return S.wind_model_diff(case['spec'], res['hex'], res['view']) if out.startswith('ok ') else \
+            'Lean reader model %s, impl returned %s steps' % (out[:40], res['view'].get('nt'))
     if fam == 'slab':
         if len(res['hex']) % 8 != 0:
             # a cut inside a word: numpy cannot map the file as float32 — must raise
